@@ -428,7 +428,8 @@ fn gen_c08(case_seed: u64, _case: u64, _tier: Tier) -> Plan {
 			let ts = if explicit_ts && rng.chance(1, 2) { Some(rng.range(1, 6)) } else { None };
 			let s = match rng.below(20) {
 				0..=5 => Step::Set { a: 1, k, v: tags.next(if rng.chance(1, 8) { 0 } else { rng.range(1, 50) as u32 }), ts },
-				6 | 7 => Step::Delete { a: 1, k, ts },
+				6 => Step::Delete { a: 1, k, ts },
+				7 => Step::Replace { a: 1, k, v: tags.next(rng.range(1, 50) as u32) },
 				8 => Step::SoftDelete { a: 1, k, ts },
 				9..=12 => Step::Get { a: 1, k },
 				13 => Step::Scan { a: 1, lo: None, hi: None, rev: rng.chance(1, 2) },
@@ -737,7 +738,10 @@ fn gen_concurrent(case_seed: u64, tier: Tier, id: &str) -> Plan {
 
 // ---------------------------------------------------------------- C10
 
-fn gen_c10(case_seed: u64, _case: u64, tier: Tier) -> Plan {
+fn gen_c10(case_seed: u64, case: u64, tier: Tier) -> Plan {
+	if case % 4 == 3 {
+		return super::crash::gen_c10_crash(case_seed, case, tier);
+	}
 	let mut rng = Rng::new(case_seed);
 	let mut opts = random_opts(&mut rng);
 	opts.versioning = true;
@@ -845,13 +849,13 @@ fn gen_c10(case_seed: u64, _case: u64, tier: Tier) -> Plan {
 pub fn c10() -> CheckDef {
 	CheckDef {
 		id: "C10",
-		level: "exploration",
-		rule: "a case = one logical history of timestamped sets / soft deletes / hard deletes / replaces (non-decreasing timestamps per key, one write per key per transaction so that no two versions tie) executed under two physical plans (placements of rotate / flush / compaction / reopen) - one with the B+tree version index, one without - with history_with_options over option combinations (tombstones, ts range, limit; forward and backward), get_at at every used timestamp +-1 and plain scans, before and after flush/compaction/reopen. Oracle: model get_at / history (keys ascending, newest first, hard delete and replace erase everything older). non-trivial = >=2 commits and >=2 reads; distinct = op-log digests of both twins",
+		level: "fault_enumeration",
+		rule: "a case = one logical history of timestamped sets / soft deletes / hard deletes / replaces (non-decreasing timestamps per key, one write per key per transaction so that no two versions tie) executed under two physical plans (placements of rotate / flush / compaction / reopen) - one with the B+tree version index, one without - with history_with_options over option combinations (tombstones, ts range, limit; forward and backward), get_at at every used timestamp +-1 and plain scans, before and after flush/compaction/reopen. Every fourth case instead runs the crash engine (C02's) with versioning on (B+tree index in two thirds): crash images at file-operation boundaries - in particular inside a flush, where the version index is updated in place before the manifest switches - are recovered and the full forward and backward history plus get_at at every version timestamp must equal those of the commit prefix the store recovered to. Oracle: model get_at / history (keys ascending, newest first, hard delete and replace erase everything older). non-trivial = >=2 commits and >=2 reads; distinct = op-log digests of both twins",
 		assumptions: &["retention 0 (unlimited) only; finite retention is not explored by this check", "with a limit only forward traversals are judged (which end a backward traversal keeps is not pinned down by the property)"],
 		components: COMPONENTS,
 		cases: |t| cases(t, 16000, 240000),
 		gen: gen_c10,
-		judge,
+		judge: judge_c10,
 		shrink_budget: 250,
 	}
 }
@@ -954,6 +958,17 @@ fn gen_c11(case_seed: u64, case: u64, tier: Tier) -> Plan {
 		}
 	}
 	p
+}
+
+fn judge_c10(plan: &Plan, tier: Tier) -> Judged {
+	if !c10_in_domain(plan) || plan.twin.as_ref().map(|t| !c10_in_domain(t)).unwrap_or(false) {
+		return Judged::default();
+	}
+	if plan.params.get("mode").copied().unwrap_or(0) == 1 {
+		super::crash::judge(plan, tier)
+	} else {
+		judge(plan, tier)
+	}
 }
 
 fn judge_c11(plan: &Plan, tier: Tier) -> Judged {
